@@ -6,7 +6,7 @@ PROPS["C07"] = dict(
          "the current pc and applies random host operations (software trigger 0x204, acknowledge 0x202, re-routing "
          "0x206-0x20C and vectors, SendData, timer expiry, DMA start); an independent ICU+core model predicts pc, sp, pushed "
          "return address, ie, ip*, im*, pending register after every step. wiring mode: each peripheral source raises exactly "
-         "its documented IRQ bit. distinct_nontrivial = distinct (line entered, instruction after which it was entered, nesting depth, request previously held back by a mask?) + wiring sources",
+         "its documented IRQ bit. Fed instructions include the guest's own software trigger (mov a0l,[0x8204]), preferably while another request sits in the latch (a request raised by the instruction at whose end another one is entered). distinct_nontrivial = distinct (line entered, instruction after which it was entered, nesting depth, request previously held back by a mask?) + wiring sources",
     floors={Q: {"entries_line0": 1000, "entries_line1": 1000, "entries_line2": 1000, "entries_line3": 1000,
                 "steps_with_masked_request_held": 5000, "steps_inside_rep": 1000, "op_ack": 1000, "wiring_checked": 100},
             T: {"entries_line0": 50000, "entries_line1": 50000, "entries_line2": 50000, "entries_line3": 50000,
